@@ -98,8 +98,8 @@ def make_case(prog, tier, nmsgs):
     keyrecs = []
     for j, (mf, kb, pk) in enumerate(unknown_keys(prog)):
         g = wire_ref.MsgGen(prog, random.Random(5), list_len=1, int_cls="pattern", str_idx=1, key=(mf, kb, pk))
-        m = {"t": "o", "fs": g.fields(dsl.root(prog)["fields"])}
         try:
+            m = {"t": "o", "fs": g.fields(dsl.root(prog)["fields"])}
             b = wire_ref.layout(prog, rootname, m)
         except wire_ref.OutOfDomain:
             continue
